@@ -70,7 +70,7 @@ def strategy(tier):
         # the configured range has exactly as many addresses as the scan
         # needs (pre-assigned addresses then lie outside the range)
         "tight": st.sampled_from([False, False, False, True]),
-        "reserve": st.sampled_from([0, 0, 1, 2, 3]),
+        "reserve": st.sampled_from([0, 0, 1, 2, 3, 70, 260, 300]),
     })
 
 
@@ -109,6 +109,10 @@ def run_case(case):
     dup_pre = dup_pre and len([a for a in pre if a]) != len(seen)
     n = len(pre)
     hi = LO + max(case["width"], 3 * n + len(seen) + 5)
+    if case.get("reserve", 0) > 3:
+        # many reservations: the range has room for them and little more, so
+        # that later draws come back to reserved addresses
+        hi = LO + case["reserve"] + 2 * n + len(seen) + 2
     if tight:
         hi = LO + pre.count(0) - 1
     world = {"terms": [], "writes": []}
@@ -165,6 +169,9 @@ def run_case(case):
             out["results"] = [e]
             out["used"] = set(ec.used_addresses)
             return
+        if out["reserved"]:
+            # the random source comes back to the values it started with
+            st_["i"] = 0
         if case["mode"] in ("scan", "twice", "both"):
             jobs.append(ec.scan_serial_numbers())
         if case["mode"] == "twice":
